@@ -413,14 +413,15 @@ Section WithHash.
      has ended).  The error classes it can see: *)
   Inductive rerr :=
   | RNetwork            (* every authority failed / unreachable *)
-  | RCapacityGlobal     (* errResolutionCapacity: every in-flight resolution slot taken — load shed *)
-  | RCapacityZone       (* errZoneCapacity: the zone's in-flight quota taken — load shed *)
+  | RCapacityGlobal     (* errResolutionCapacity: every in-flight resolution slot taken — load shed; wraps middleware.ErrResolutionCapacity *)
+  | RCapacityZone       (* errZoneCapacity: the zone's in-flight quota taken — load shed; wraps the same sentinel *)
   | RWorkLimit | RAttemptLimit | RProbeLimit | RMaxRecursion | RCanceled | RDeadline.
   (* IsRequestLocalResolutionError, as the source lists it *)
   Definition is_request_local_error (e : rerr) : bool :=
     match e with
-    | RWorkLimit | RAttemptLimit | RProbeLimit | RMaxRecursion | RCanceled | RDeadline => true
-    | RNetwork | RCapacityGlobal | RCapacityZone => false
+    | RWorkLimit | RAttemptLimit | RProbeLimit | RCapacityGlobal | RCapacityZone
+    | RMaxRecursion | RCanceled | RDeadline => true
+    | RNetwork => false
     end.
   (* which of them are the resolver or cache shedding load *)
   Definition shed_load (e : rerr) : bool :=
